@@ -53,7 +53,7 @@ pub fn expect_delivered_by(a: &Analysis, i: usize, f: usize) -> bool {
 
 /// the commit of collect c entered its ring before `step` (a commit parked behind a full ring is
 /// kept, not lost, but travels only with the thread's next command or at its exit)
-fn commit_consumed_before(a: &Analysis, c: usize, step: u32, end_step: u32) -> bool {
+fn commit_consumed_before(a: &Analysis, c: usize, step: u32, _end_step: u32) -> bool {
     match a.collect_ids.get(&c) {
         Some(id) => a
             .cmds
@@ -61,13 +61,10 @@ fn commit_consumed_before(a: &Analysis, c: usize, step: u32, end_step: u32) -> b
             .any(|x| {
                 x.kind == 2
                     && x.collect == *id
-                    && if x.parked {
-                        // parked behind a full ring: kept, but it travels only with the thread's
-                        // next command or at its exit; exact entry time unknown -> by consumption
-                        x.consumed_at.map(|li| a.hist.out.log[li].step <= end_step).unwrap_or(false)
-                    } else {
-                        x.entered.map(|li| a.hist.out.log[li].step < step).unwrap_or(false)
-                    }
+                    // a commit parked behind a full ring is kept, but it travels only with the
+                    // thread's next command or at its exit: what counts is when it entered the ring
+                    && x.consumed_at.is_some()
+                    && x.entered.map(|li| a.hist.out.log[li].step < step).unwrap_or(false)
             }),
         None => false,
     }
@@ -94,6 +91,10 @@ fn presence<F: Fn(&ExpRec) -> bool>(a: &Analysis, v: &mut Verdict, prop: &str, c
         let end_step = a.hist.ops[f].end_step;
         for (i, r) in a.model.recs.iter().enumerate() {
             if !filter(r) || !expect_delivered_by(a, i, f) {
+                continue;
+            }
+            // whether a held trace survives a non-atomic cut is C03's and C04's question
+            if a.model.collects[r.collect].cancelable && prop != "C03" && prop != "C04" && a.inversion(r.collect) != (false, false) {
                 continue;
             }
             let ok = delivered_batch(a, i).map(|b| a.hist.batches[b].step <= end_step).unwrap_or(false);
@@ -359,10 +360,10 @@ pub fn c03(a: &Analysis, v: &mut Verdict) {
 /// P_CYCLE_BEGIN and P_CYCLE_END) at some point between the earliest submit of the trace and the
 /// end of the root's finish op. Used only to name the violation class.
 fn cut_sig(a: &Analysis, c: usize) -> &'static str {
-    if a.cut_inverted(c) {
-        "inverted-cut"
-    } else {
-        "consistent-cut"
+    match a.inversion(c) {
+        (_, true) => "ring-reordered",
+        (true, false) => "inverted-cut",
+        _ => "consistent-cut",
     }
 }
 
@@ -598,6 +599,10 @@ fn att_required(a: &Analysis, att: &ExpAtt, target_rec: &ExpRec) -> bool {
             if !a.hb.before_eq(t_submit, fo) {
                 return false;
             }
+            // main's ThreadEnd drops every remaining slot in slot order: the root may go first
+            if t_submit == fo && target_rec.node != col.root_node && matches!(a.case.ops[fo].op, Op::ThreadEnd) {
+                return false;
+            }
             if col.cancelable && (!col.cancels.is_empty()) {
                 return false;
             }
@@ -626,6 +631,10 @@ pub fn check_attachments(a: &Analysis, v: &mut Verdict, prop: &str, clause_exact
         }
         let atts: Vec<usize> = by_target.get(&(er.node, er.collect)).cloned().unwrap_or_default();
         let copies = m.recs.iter().filter(|x| x.node == er.node && x.collect == er.collect).count();
+        if copies > 1 && prop != "C06" {
+            // attachments to a span with two parents in one trace: C06's question (finding D8)
+            continue;
+        }
         for &di in &a.matched[ei] {
             let d = &a.delivered[di];
             let r = a.rec(d);
